@@ -190,7 +190,15 @@ func CheckC18(e *fw.Env, l *Lab) {
 		gbz, _ := json.Marshal(gen)
 		l2, err := NewLab(world.Config{OrbiterGenesis: gbz})
 		if err != nil {
-			e.Res.Inconc("genesis world: %v", err)
+			// a value the authority can set by message must be acceptable in a genesis document
+			// too (the state it leads to is exported as one)
+			tmp, _ := l.Base.CacheContext()
+			if UpdateParams(w, tmp, v) == nil {
+				e.Res.Violate(fw.Violation{Property: "C18", Kind: "genesis-refuses-value-the-authority-can-set",
+					Detail: fmt.Sprintf("a chain cannot start with max_passthrough_payload_size=%d (%v), yet UpdateParams accepts that value", v, trunc(err.Error(), 300))})
+				return
+			}
+			e.Res.Count("genesis-value-refused-by-genesis-and-by-update")
 			return
 		}
 		h := fmt.Sprintf("genesis max_passthrough_payload_size=%d", v)
